@@ -99,29 +99,33 @@ def run_variant(sessions_file, k, scratch, timeout=600):
     return digs
 
 
-def compare(ctx, sessions, base, other, k):
+def classify(a, b):
+    if a.get("error") or b.get("error"):
+        return "load_outcome" if a.get("error") != b.get("error") else None
+    if a["steps"] != b["steps"]:
+        return "accept_reject_outcome"
+    if a["strs"] != b["strs"]:
+        return "printed_procedure"
+    if a.get("c") != b.get("c"):
+        return "c_text"
+    if a.get("h") != b.get("h"):
+        return "h_text"
+    return None
+
+
+def compare(ctx, sessions, base, other, k, rerun=None):
     for i, s in enumerate(sessions):
         a, b = base.get(i), other.get(i)
         if a is None or b is None:
             ctx.inconclusive("missing_digest")
             continue
         ctx.stat("evaluations")
-        if a.get("error") or b.get("error"):
-            if a.get("error") != b.get("error"):
-                kind = "load_outcome"
-            else:
+        kind = classify(a, b)
+        if kind is None:
+            if a.get("error"):
                 ctx.stat("c18.session_error")
-                continue
-        elif a["steps"] != b["steps"]:
-            kind = "accept_reject_outcome"
-        elif a["strs"] != b["strs"]:
-            kind = "printed_procedure"
-        elif a.get("c") != b.get("c"):
-            kind = "c_text"
-        elif a.get("h") != b.get("h"):
-            kind = "h_text"
-        else:
-            ctx.stat("c18.identical")
+            else:
+                ctx.stat("c18.identical")
             continue
         # which step?
         first = None
@@ -130,8 +134,25 @@ def compare(ctx, sessions, base, other, k):
                 first = j
                 break
         op = s["steps"][first]["op"] if first is not None else None
-        sig = {"prop": "C18", "monitor": "replay-diff", "kind": kind, "op": op, "variant": {kk: vv for kk, vv in VARIANTS[k][1].items()}, "hashseed_only": not VARIANTS[k][1]}
-        ctx.violation(sig, {"session": s, "variant": k, "base": a, "other": b})
+        # is the difference reproducible?  replay both environments once more: if two
+        # runs of the *same* environment differ, the outcome depends on memory addresses
+        # (Sym hashes by id(), so set/dict order follows allocation), not on the variant
+        address_dependent = None
+        if rerun is not None:
+            a2 = rerun(0)
+            b2 = rerun(k)
+            if a2 is not None and b2 is not None:
+                address_dependent = classify(a, a2.get(i) or {"error": "missing"}) is not None or classify(b, b2.get(i) or {"error": "missing"}) is not None
+        sig = {
+            "prop": "C18",
+            "monitor": "replay-diff",
+            "kind": kind,
+            "op": op,
+            "variant": {kk: vv for kk, vv in VARIANTS[k][1].items()},
+            "hashseed_only": not VARIANTS[k][1],
+            "address_dependent": address_dependent,
+        }
+        ctx.violation(sig, {"session": s, "sessions_before": sessions[:i], "variant": k, "base": a, "other": b})
 
 
 def plan(tier, seed):
@@ -164,7 +185,7 @@ def shard(ctx):
         if other is None:
             ctx.inconclusive("replay_watchdog")
             continue
-        compare(ctx, sessions, base, other, k)
+        compare(ctx, sessions, base, other, k, rerun=lambda kk: run_variant(sf, kk, ctx.scratch))
 
 
 def finish(agg, tier):
@@ -183,12 +204,13 @@ def replay(case):
     scratch = pathlib.Path(tempfile.mkdtemp(prefix="vf_c18r_"))
     try:
         sf = scratch / "sessions.json"
-        sf.write_text(json.dumps([case["session"]]))
+        pre = case.get("sessions_before") or []
+        sf.write_text(json.dumps(pre + [case["session"]]))
         a = run_variant(sf, 0, scratch)
         b = run_variant(sf, case["variant"], scratch)
         if a is None or b is None:
             return {"reproduced": None, "detail": "watchdog"}
-        da, db = a.get(0), b.get(0)
+        da, db = a.get(len(pre)), b.get(len(pre))
         same = da == db
         return {"reproduced": not same, "sig": {"prop": "C18", "monitor": "replay-diff"}, "detail": f"base={da}\nother={db}"}
     finally:
